@@ -345,6 +345,7 @@ PROPS["C11"] = {
             oracle="at refactor the engine's copy == the KKT matrix (every P/A/Hs/diagonal write reached it); afterwards KKT holds the new P,A and an UNregularised diagonal; engine got +eps/-eps by sign; sign vector")),
         ("c11_kkt_sync_zero1_nn1_noreg", dict(stubs=True, nofloat=True, rot=True, unit="same", inst="f64", bounds="cones [Zero1,NN1], regularisation off", timeout=2400, mem_gb=24, oracle="same, no shift")),
     ]) + [dict(name="c13::c13_soc3_hs_block_p7", unit="SecondOrderCone::get_Hs vs mul_Hs", inst="GF(7)", bounds="dim 3, all normalised w, eta, x", oracle="unpacked KKT block == operator applied when recovering the slack step", timeout=1500),
+          dict(name="c13::c13_soc5_identity_scaling_resets_expansion", unit="SecondOrderCone::set_identity_scaling, mul_Hs, get_Hs (sparse expansion)", inst="GF(17)", bounds="dim 5; arbitrary previous contents of w, eta, d, u, v", oracle="afterwards the expansion written into K is the operator mul_Hs == identity", timeout=1200),
           dict(name="c13::c13_soc5_update_scaling_sparse_p17", unit="SecondOrderCone::update_scaling / sparse_data / get_Hs / mul_Hs", inst="GF(17)", bounds="dim 5 (two symbolic tail entries)", oracle="eta^2 (D + uu' - vv') == mul_Hs", timeout=3000, mem_gb=24)],
 }
 PROPS["C13"] = {
@@ -364,6 +365,8 @@ PROPS["C13"] = {
         ("c13_soc3_hs_dense", dict(tier="thorough", unit="same", inst="GF(13)", bounds="dim 3", oracle="same", timeout=9000)),
         ("c13_soc3_hs_block_p7", dict(unit="SecondOrderCone::get_Hs (dense packed block)", inst="GF(7)", bounds="dim 3", oracle="unpacked packed-triu block == mul_Hs", timeout=1500)),
         ("c13_soc3_update_scaling", dict(unit="SecondOrderCone::update_scaling", inst="GF(13)", bounds="dim 3, all s,z with square nonzero residuals", oracle="w normalised; eta^4 = res(s)/res(z)", timeout=2400, mem_gb=20)),
+        ("c13_soc5_identity_scaling_resets_expansion", dict(unit="SecondOrderCone::set_identity_scaling, mul_Hs, get_Hs (sparse expansion)", inst="GF(17)", bounds="dim 5; arbitrary previous contents of w, eta, d, u, v; arbitrary x", oracle="afterwards mul_Hs == identity and eta^2 (D + uu' - vv') == mul_Hs", timeout=1200)),
+        ("c13_soc3_identity_scaling", dict(unit="SecondOrderCone::set_identity_scaling, mul_Hs (dense)", inst="GF(17)", bounds="dim 3", oracle="mul_Hs == identity", timeout=900)),
         ("c13_soc5_update_scaling_sparse_p17", dict(unit="SecondOrderCone::update_scaling incl. sparse_data (u,v,d), get_Hs, mul_Hs", inst="GF(17)", bounds="dim 5 (two symbolic tail entries, the others zero)", oracle="as _p7", timeout=3000, mem_gb=24)),
         ("c13_soc5_update_scaling_sparse_p19", dict(tier="thorough", unit="same", inst="GF(19)", bounds="same", oracle="same", timeout=7200, mem_gb=24)),
         ("c13_soc5_update_scaling_sparse_p7", dict(unit="SecondOrderCone::update_scaling incl. sparse_data (u,v,d), get_Hs, mul_Hs", inst="GF(7): every scaling point at which all nested roots exist has v = 0, so this instance decides the d and u parts only (GF(11), GF(13): no scaling point exists, vacuous; GF(17) quick / GF(19) thorough are the informative ones)", bounds="dim 5 (two symbolic tail entries, the others zero)", oracle="w normalised; eta^4 = res(s)/res(z); eta^2(D+uu'-vv') == mul_Hs; D block = eta^2 diag(d,1,..)", timeout=2400, mem_gb=24)),
@@ -409,6 +412,8 @@ PROPS["C07"] = {
         ("c15_soc3_range", dict(nofloat=True, unit="SecondOrderCone::step_length", inst="f64", bounds="dim 3", oracle="step in [0, alpha_max]", timeout=1800, mem_gb=20)),
     ]) + [_C07_LOOP],
 }
+# strict interiority of the STARTING iterate (first clause of C07) is the shift decided in c15_shift_nn
+PROPS["C07"]["harnesses"] = PROPS["C07"]["harnesses"] + [x for x in PROPS["C15"]["harnesses"] if x["name"] == "c15::c15_shift_nn"]
 
 PROPS["C08"] = {
     "native_tests": ["tv_composite", "tv_kkt"],
@@ -463,6 +468,10 @@ PROPS["C05"] = {
         dict(name="c16::c16_to_triu_3x3_some", tier="thorough", unit="same", inst="i32", bounds="6 representative 3x3 patterns", timeout=1500, oracle="same"),
     ],
 }
+# "equilibration on/off are the same problem" rests on the equilibrated data being exactly the recorded scaling of
+# the user's data: the C10 exactness harnesses are part of the C05 check as well
+PROPS["C05"]["harnesses"] = PROPS["C05"]["harnesses"] + [x for x in PROPS["C10"]["harnesses"] if x["name"] in ("c10::c10_exact_nn2_1sweep", "c10::c10_exact_nn1_soc2_1sweep")]
+PROPS["C05"]["native_tests"] = ["tv_composite"]
 
 _JET = "first-order jets over GF(13): exact differentiation of the REAL generic code; ln / powf uninterpreted (arbitrary value, memoised per argument) with their derivative rules"
 PROPS["C14"] = {
